@@ -243,11 +243,18 @@ class ZMQEventLoop(EventLoop):
         """
         with contextlib.suppress(ExitMainLoop):
             while True:
-                try:
-                    self._loop()
-                except zmq.error.ZMQError as exc:  # noqa: PERF203
-                    if exc.errno != errno.EINTR:
-                        raise
+                self._loop()
+
+    def _poll(self, timeout: int | None = None) -> dict | None:
+        """
+        Poll the registered queues and files.  An interrupted system call is not an answer: return None.
+        """
+        try:
+            return dict(self._poller.poll(timeout))
+        except zmq.error.ZMQError as exc:
+            if exc.errno != errno.EINTR:
+                raise
+            return None
 
     def _loop(self) -> None:
         """
@@ -264,13 +271,17 @@ class ZMQEventLoop(EventLoop):
                 timeout = 0
             if self._poller.sockets:
                 # poll() truncates to whole milliseconds: round up, an alarm must not fire before it is due
-                ready = dict(self._poller.poll(math.ceil(timeout * 1000)))
+                ready = self._poll(math.ceil(timeout * 1000))
             else:
                 # an empty poller returns at once instead of waiting
                 time.sleep(timeout)
                 ready = {}
         else:
-            ready = dict(self._poller.poll())
+            ready = self._poll()
+
+        if ready is None:
+            # interrupted while waiting: neither input nor a time-out, look again
+            return
 
         if state == "idle":
             if not ready:
